@@ -13,6 +13,10 @@ What is compared
   triangle inequality (generic, collinear = equality case, near-identical triples), cosine in [-1,1], 1 / -1 on
   parallel / opposite vectors, invariance under positive scaling.
 TOL = 1e-4 (f32 SIMD sums of <= 136 terms against exact arithmetic; f32 has 2^-24 ~ 6e-8 relative precision).
+An "extreme" stream uses magnitudes 2^+-(31..45): every square and both squared norms are normal f32 numbers but the
+product of the two squared norms is not.  `cosine` used to form that product before its sqrt and returned 0 / inf there
+(found by this check, repaired by /repo commit 1c96f65, recorded `fixed` under the key KEY_RANGE); the stream stays so that
+the defect is caught if it returns, and failures of exactly that input class carry that key.
 A zero vector has no cosine (0/0): such cases are counted and skipped, the property speaks of non-zero vectors only.
 For the empty vector `from_vec` yields one all-zero block: the oracle accepts 0 or 8 zeros there (DESIGN.md section 6:
 not a defect; the theorem states the exact length function), for every other length exactly the next multiple of 8.
@@ -115,6 +119,32 @@ def cos_close(c, d, n, tol):
     return le_mul_sqrt(d, c + tol, n) and le_mul_sqrt(-d, -(c - tol), n)
 
 
+F32_MIN_NORMAL = Fraction(1, 2 ** 126)
+F32_LIMIT = Fraction(2 ** 128)
+KEY_RANGE = "C16:cosine:norm-product-out-of-f32-range"
+
+
+def norm_product_out_of_range(u_bits, v_bits, ku=Fraction(1), kv=Fraction(1)):
+    """both squared norms (of ku*u and kv*v on the common packed prefix) are normal f32 numbers but their product is not:
+    the class of inputs on which `cosine` loses the result because it multiplies the two squared norms before the sqrt"""
+    _, _, n1, n2 = textbook(u_bits, v_bits)
+    n1, n2 = n1 * ku * ku, n2 * kv * kv
+    def ok(x):
+        return F32_MIN_NORMAL <= x < F32_LIMIT
+    return n1 > 0 and n2 > 0 and ok(n1) and ok(n2) and not ok(n1 * n2)
+
+
+def rekey(res, out_of_range):
+    """cosine findings on inputs of the range class get the class key (so that it can be told apart from any other failure)"""
+    if not out_of_range:
+        return res
+    return [((KEY_RANGE, m + " [the product of the two squared norms leaves the f32 range]") if k.startswith("C16:cosine") else (k, m)) for k, m in res]
+
+
+def show(b):
+    return "panic" if b == "P" else repr(vlib.f32_bits_to_float(b))
+
+
 def val(b):
     """exact value of an implementation result; None for panic / NaN / inf"""
     if b == "P" or not finite(b):
@@ -165,7 +195,7 @@ def oracle_dist(r):
             c = val(r[key])
             if c is None or not cos_close(c, d, n1 * n2, TOL):
                 res.append(("C16:cosine-value", "%s: cosine = %s but the textbook dot/(|u||v|) = %s" % (
-                    lens, None if c is None else float(c), float(d) / (float(n1) ** 0.5 * float(n2) ** 0.5))))
+                    lens, show(r[key]), float(d) / (float(n1) ** 0.5 * float(n2) ** 0.5))))
                 break
         c1, c2 = val(r["cos"]), val(r["cosr"])
         if c1 is not None and c2 is not None:
@@ -173,10 +203,12 @@ def oracle_dist(r):
                 res.append(("C16:cosine-sym", "%s: cosine(u,v) = %s but cosine(v,u) = %s" % (lens, float(c1), float(c2))))
             if c1 > 1 + TOL or c1 < -1 - TOL:
                 res.append(("C16:cosine-range", "%s: cosine = %s outside [-1,1]" % (lens, float(c1))))
+    res = rekey(res, norm_product_out_of_range(r["u"], r["v"]))
     if nu > 0:
         c = val(r["cosuu"])
         if c is None or abs(c - 1) > TOL:
-            res.append(("C16:cosine-parallel", "length %d: cosine(u,u) = %s, not 1" % (len(r["u"]), None if c is None else float(c))))
+            res += rekey([("C16:cosine-parallel", "length %d: cosine(u,u) = %s, not 1" % (len(r["u"]), show(r["cosuu"])))],
+                         norm_product_out_of_range(r["u"], r["u"]))
     return res
 
 
@@ -204,8 +236,10 @@ def oracle_scale(r):
         return []
     c, cs = val(r["cos"]), val(r["coss"])
     if c is None or cs is None or abs(c - cs) > TOL:
-        return [("C16:cosine-scale", "cosine(u,v) = %s but cosine(%s*u, %s*v) = %s" % (
-            None if c is None else float(c), vlib.f32_bits_to_float(r["ka"]), vlib.f32_bits_to_float(r["kb"]), None if cs is None else float(cs)))]
+        oor = norm_product_out_of_range(r["u"], r["v"]) or norm_product_out_of_range(
+            r["u"], r["v"], f32_bits_to_fraction(r["ka"]), f32_bits_to_fraction(r["kb"]))
+        return rekey([("C16:cosine-scale", "cosine(u,v) = %s but cosine(%s*u, %s*v) = %s" % (
+            show(r["cos"]), vlib.f32_bits_to_float(r["ka"]), vlib.f32_bits_to_float(r["kb"]), show(r["coss"])))], oor)
     return []
 
 
@@ -218,8 +252,9 @@ def oracle_par(r):
     c = val(r["cosp"])
     want = 1 if kf > 0 else -1
     if c is None or abs(c - want) > TOL:
-        return [("C16:cosine-parallel" if want == 1 else "C16:cosine-opposite",
-                 "cosine(u, %s*u) = %s, expected %d (length %d)" % (float(kf), None if c is None else float(c), want, len(r["u"])))]
+        return rekey([("C16:cosine-parallel" if want == 1 else "C16:cosine-opposite",
+                       "cosine(u, %s*u) = %s, expected %d (length %d)" % (float(kf), show(r["cosp"]), want, len(r["u"])))],
+                     norm_product_out_of_range(r["u"], r["u"], Fraction(1), kf))
     return []
 
 
@@ -365,7 +400,9 @@ def run(chk):
             e = val(r["eu"])
             c = val(r["cos"])
             bad = e is None or e < 0 or abs(e * e - Fraction(ms)) > TOL * Fraction(ms)
-            if Fraction(m1) * Fraction(m2) > 0:
+            if norm_product_out_of_range(r["u"], r["v"]):
+                hist["dist:cosine-range-class(not compared with the model)"] += 1
+            elif Fraction(m1) * Fraction(m2) > 0:
                 bad = bad or c is None or not cos_close(c, Fraction(md), Fraction(m1) * Fraction(m2), TOL)
             if bad:
                 dist_dis.append(i)
@@ -385,7 +422,8 @@ def run(chk):
         "rule": "packing: every length 0..=130 (all residues mod 8) x value styles (all-non-zero integers, finite over magnitudes 2^-12..2^12 "
                 "with per-element spread, special bit patterns incl. NaN payloads/inf/-0.0/subnormals, zeros); distances: every length 0..=130 x "
                 "{equal-length, random unequal length, same block count different length, near-identical}; 60*reps triangle triples (generic, "
-                "collinear, near-identical), 60*reps scaling pairs and parallel/opposite pairs. non-trivial = a length that is not a multiple "
+                "collinear, near-identical), 60*reps scaling pairs and parallel/opposite pairs, 12*reps extreme-magnitude (2^+-31..45) distance / "
+                "scaling / parallel records. non-trivial = a length that is not a multiple "
                 "of 8, or unequal lengths; distinct by (record kind, lengths, record number)",
         "tolerance": "relative 1e-4 on squares for euclidean, absolute 1e-4 on cosine, relative 1e-4 for the triangle inequality",
         "samples": [r["raw"][:300] for r in (packs[5:6] + dists[7:8] + [x for x in recs if x["what"] == "tri"][:1])],
@@ -399,6 +437,7 @@ def run(chk):
     })
 
     # ---- verdict -------------------------------------------------------------------------------------------
+    unknown_failure = False
     if failures:
         by_key = {}
         for (r, key, msg) in failures:
@@ -411,10 +450,12 @@ def run(chk):
             for k in ("eu", "eur", "cos", "cosr", "euu", "cosuu", "dab", "dbc", "dac", "coss", "cosp", "ka", "kb", "kf"):
                 if k in small:
                     dec[k] = "panic" if small[k] == "P" else vlib.f32_bits_to_float(small[k])
+            if chk.is_known(key) is None:
+                unknown_failure = True
             chk.violation(key, msgs[0], {"input": replay_text(small), "decoded": dec,
                                          "all_oracle_findings_on_this_input": oracle(small),
                                          "replay_cmd": "./check C16 --replay <this file>", "broken": chk.broken})
-    elif pack_dis or dist_dis or chk.broken:
+    if (pack_dis or dist_dis or chk.broken) and not unknown_failure:
         what = "proof or correspondence no longer checks: " + "; ".join(b.split("\n")[0][:200] for b in chk.broken)
         rep = {"broken": chk.broken}
         if pack_dis:
